@@ -152,8 +152,19 @@ func TestHistEnum(t *testing.T) {
 
 func TestHistProp(t *testing.T) {
 	vrep.Run(t, "HistProp", false, func(t *rapid.T) HistCase {
-		n := rapid.IntRange(1, 200).Draw(t, "n")
 		var sb strings.Builder
+		if rapid.Bool().Draw(t, "runs") {
+			// runs: browse deep, walk far back, branch off, walk again (whatever block size, slack or threshold an
+			// implementation uses internally lies below some run length)
+			for r := rapid.IntRange(1, 12).Draw(t, "nruns"); r > 0; r-- {
+				op := rapid.SampledFrom([]byte("aabbf")).Draw(t, "runop")
+				for k := rapid.SampledFrom([]int{1, 2, 3, 5, 8, 15, 16, 17, 18, 31, 33, 40, 65, 70}).Draw(t, "runlen"); k > 0; k-- {
+					sb.WriteByte(op)
+				}
+			}
+			return HistCase{Ops: sb.String()}
+		}
+		n := rapid.IntRange(1, 200).Draw(t, "n")
 		for i := 0; i < n; i++ {
 			sb.WriteByte(rapid.SampledFrom([]byte("aabbf")).Draw(t, "op"))
 		}
@@ -353,6 +364,15 @@ func TestFeedProp(t *testing.T) {
 	ops := []string{"a0", "a1", "a2", "a3", "p0", "p1", "p2", "p3", "u", "u", "d", "d", "c"}
 	vrep.Run(t, "FeedProp", false, func(t *rapid.T) FeedCase {
 		c := FeedCase{Create: rapid.SampledFrom(feedCreates).Draw(t, "create")}
+		if rapid.Bool().Draw(t, "runs") {
+			for r := rapid.IntRange(1, 12).Draw(t, "nruns"); r > 0; r-- {
+				op := rapid.SampledFrom(ops).Draw(t, "runop")
+				for k := rapid.SampledFrom([]int{1, 2, 3, 5, 8, 15, 16, 17, 18, 31, 33, 40, 65, 70}).Draw(t, "runlen"); k > 0; k-- {
+					c.Ops = append(c.Ops, op)
+				}
+			}
+			return c
+		}
 		n := rapid.IntRange(0, 200).Draw(t, "n")
 		for i := 0; i < n; i++ {
 			c.Ops = append(c.Ops, rapid.SampledFrom(ops).Draw(t, "op"))
